@@ -145,8 +145,9 @@ func newFixedKeyArrayIndex(keyLength int8) *fixedKeyArrayIndex {
 	return fkai
 }
 
-func (fkai *fixedKeyArrayIndex) getKeySize() int8 {
-	return int8(fkai.keylen) + 1 + 8
+func (fkai *fixedKeyArrayIndex) getKeySize() int {
+	// int, not int8: key lengths above 118 overflow int8 and Decode then computes a negative buffer size
+	return int(fkai.keylen) + 1 + 8
 }
 
 //SetOffset - set the offset of the given record
